@@ -45,7 +45,8 @@ let show (obs, fin) =
     o ^ " B=" ^ (if b = [] then "-" else str_ints b)
   | M.RErr e -> o ^ " ERR=" ^ err_name e
 
-let run_model single cap words ops = M.zrun_obs single fuel (z_of_int cap) M.zinit words ops
+let run_model ?(fuel = fuel) single cap words ops = M.zrun_obs single fuel (z_of_int cap) M.zinit words ops
+let big_fuel = nat_of_int 6000
 
 let eval_with single inp =
   match words inp with
@@ -127,7 +128,7 @@ let spec prop inp out =
        let pinned_ok = M.cvm_single_halving_pass && eval_with true inp = out in
        let repaired_ok =
          let mops = List.map (function PReset -> M.OReset | PAdd v -> M.OAdd (z_of_int v, None)) ops in
-         let (robs, fin) = run_model false cap (parse_words ws @ ext_words) mops in
+         let (robs, fin) = run_model ~fuel:big_fuel false cap (parse_words ws @ ext_words) mops in
          (match fin with M.ROk _ -> true | M.RErr _ -> false)
          && List.for_all (fun ((l, _), _) -> int_of_z l <= cap) robs in
        if pinned_ok && repaired_ok then begin
